@@ -81,6 +81,43 @@ def rule_dispatch(ctx, rep, rid="R-C12-dispatch"):
         rep.error(rid, "LspServer::run not found")
         return
     b = hb[0]
+    fb, form = dispatch_body(ctx)
+    if form == "find_map":
+        # one call of the closure is one iteration: every return lies behind the match on the kind, and on the Request arm no way to
+        # `None` (take the next message) avoids handle_request
+        where = "%s:%d" % (fb.f["file"], fb.f["line"])
+        kinds = [(i, switch_info(fb, i)) for i in sorted(fb.reachable(0)) if (switch_info(fb, i) or {}).get("kind") == "disc" and (switch_info(fb, i) or {}).get("adt") == "lsp_server::msg::Message"]
+        if not kinds:
+            r.finding("run|no-dispatch", where, "the closure that handles one message does not match on the kind of the message")
+            return
+        S, si = kinds[0]
+        dom = fb.dominators()
+        rets = [i for i in fb.reachable(0) if fb.term(i)[0] == "ret"]
+        if all(S in dom.get(x, set()) for x in rets):
+            r.ok("run|back-edge#1", where, "every return of the per-message closure lies behind the match on the message kind")
+        else:
+            r.finding("run|message-skipped-before-dispatch", where, "the per-message closure can return without matching on the kind of the message: a request on that path gets no response")
+        req = [succ for succ, labs in si["edges"].items() if "Request" in [str(l) for l in labs]]
+        hr = {c.bb for c in fb.calls() if (c.callee or "").startswith(LSP + "::") and (c.callee or "").endswith("::handle_request")}
+        if not req or not hr:
+            r.finding("run|Request arm|no-handler", where, "handle_request is not called on the Request arm")
+            return
+        nones = {i for i, _, st in fb.all_stmts() if st[0] == "=" and st[1] == [0, []] and st[2][0] == "agg" and isinstance(st[2][1], dict) and st[2][1].get("variant") == "None"}
+        seen, stk, bad = set(), [req[0]], False
+        while stk:
+            x = stk.pop()
+            if x in seen or x in hr:
+                continue
+            seen.add(x)
+            if x in nones:
+                bad = True
+                break
+            stk.extend(fb.succ(x))
+        if bad:
+            r.finding("run|Request arm|request-not-handled", where, "on the Request arm the closure can answer `None` (next message) without calling handle_request: that request is never answered")
+        else:
+            r.ok("run|Request arm", where, "every way to the next message goes through handle_request; the other way ends the loop")
+        return
     heads = [c.bb for c in b.calls() if (c.u or "") == "core::iter::traits::iterator::Iterator::next" and "Receiver" in ((c.ga or "") + (c.callee or "")) or
              (c.u or "") == "core::iter::traits::iterator::Iterator::next" and "crossbeam_channel" in (c.callee or "")]
     if not heads:
@@ -245,13 +282,31 @@ def cast_label_of_block(b, bb):
     return None
 
 
-def run_guard(ctx, rep):
-    """run(): `if req.method == Shutdown::METHOD { return Ok(req) }` dominates the handle_request call"""
+def dispatch_body(ctx):
+    """(body, form): the body in which LspServer::run takes a message and dispatches it.  form "loop": run itself (a loop over the
+    receiver).  form "find_map": run is `receiver.iter().find_map(|msg| ..)` - the closure is one iteration, returning Some ends the loop
+    (with the value run returns as Ok), returning None takes the next message."""
     rb = ctx.prog.get(LSP + "::run")
     if not rb:
+        return None, None
+    b = rb[0]
+    for c in b.calls():
+        if (c.callee or c.u or "").endswith("Iterator::find_map") and ("crossbeam_channel" in (c.ga or "") or "Receiver" in (c.ga or "")) and len(c.args) > 1:
+            p = op_place(c.args[1])
+            d = b.single_def(p[0]) if p is not None and not p[1] else None
+            if d and d[0] == "stmt" and d[3][0] == "agg" and isinstance(d[3][1], dict) and d[3][1].get("k") == "closure":
+                cbs = ctx.prog.get(norm(d[3][1]["def"]))
+                if cbs:
+                    return cbs[0], "find_map"
+    return b, "loop"
+
+
+def run_guard(ctx, rep):
+    """run(): `if req.method == Shutdown::METHOD { return Ok(req) }` dominates the handle_request call"""
+    b, _form = dispatch_body(ctx)
+    if b is None:
         rep.error("R-C12-reply", "LspServer::run not found")
         return False
-    b = rb[0]
     hr = [c for c in b.calls() if c.callee == LSP + "::handle_request"]
     if not hr:
         return False
@@ -278,11 +333,10 @@ def run_guard(ctx, rep):
 def rule_run(ctx, rep):
     r = rep.rule("R-C12-run", "run() hands every Request that is not shutdown to handle_request, every Notification to "
                               "handle_notification, and no message kind leads to a panic or is dropped", floor=3, floor_what="message arms")
-    rb = ctx.prog.get(LSP + "::run")
-    if not rb:
+    b, _form = dispatch_body(ctx)
+    if b is None:
         rep.error("R-C12-run", "run not found")
         return
-    b = rb[0]
     # the switch on the Message discriminant
     found = False
     for bb in sorted(b.reachable(0)):
@@ -384,7 +438,26 @@ def rule_exit(ctx, rep):
                                 good = True
             if not good:
                 bad += 1
-    if n_ok == 0 or bad:
+    fb, form = dispatch_body(ctx)
+    if n_ok == 0 and form == "find_map":
+        # run returns find_map(..).ok_or(..): Ok exactly when the closure answered Some - which must be behind the shutdown comparison
+        via = [c for c in b.calls() if (c.callee or "").split("::")[-1] in ("ok_or", "ok_or_else") and c.dest == [0, []]]
+        somes = [i for i, _, st in fb.all_stmts() if st[0] == "=" and st[1] == [0, []] and st[2][0] == "agg" and isinstance(st[2][1], dict) and st[2][1].get("variant") == "Some"]
+        good_all = bool(via) and bool(somes)
+        for i in somes:
+            good = False
+            for d in fb.dominators().get(i, set()):
+                si = switch_info(fb, d)
+                if si and si["kind"] == "bool" and si["subject"][0] == "call" and si["subject"][1].callee.endswith("::eq") and any(is_shutdown_const(fb, a) for a in si["subject"][1].args):
+                    for succ, lab in si["edges"].items():
+                        if lab == [True] and (succ == i or succ in fb.dominators().get(i, set())):
+                            good = True
+            good_all = good_all and good
+        if good_all:
+            r.ok("run|Ok-return", "%s:%d" % (b.f["file"], b.f["line"]), "Ok is the Some of the per-message closure, which lies behind the shutdown comparison")
+        else:
+            r.finding("run|Ok-return", "%s:%d" % (b.f["file"], b.f["line"]), "run() can return Ok without having received shutdown")
+    elif n_ok == 0 or bad:
         r.finding("run|Ok-return", "%s:%d" % (b.f["file"], b.f["line"]), "run() can return Ok without having received shutdown")
     else:
         r.ok("run|Ok-return", "%s:%d" % (b.f["file"], b.f["line"]))
